@@ -381,6 +381,79 @@ impl crate::hist::Monitor for C13InSitu {
     }
 }
 
+/// Directed instruction-level scenario: one tick array is driven to all 88 ticks initialized through the real
+/// liquidity instructions (44 dust positions over slot pairs, random order, alternating v1 / v2), then emptied
+/// again - once on a dynamic and once on a fixed array. Every instruction must have the same outcome on both
+/// kinds (and succeed); the in-situ rules and the position-sum rule (C05) are applied after every instruction.
+pub fn directed_full_array(seed: u64, acc: &mut Acc) {
+    use crate::hist::Monitor;
+    use crate::world::World;
+    use rand::seq::SliceRandom;
+    let mut outcomes: Vec<Vec<bool>> = vec![];
+    for dynamic in [true, false] {
+        let mut w = World::new(rnd::rng(seed ^ 0xf011));
+        let c = w.add_config(300);
+        let (m1, m2) = (w.add_spl_mint(6), w.add_spl_mint(6));
+        let u = w.add_user();
+        let sp: u16 = *rnd::pick(&mut w.r, &[1u16, 8]);
+        // price far below the array, so deposits are single-sided and cheap
+        let start = 88 * sp as i32 * w.r.gen_range(2..6);
+        let Ok(p) = w.add_pool(c, m1, m2, sp, 3000, whirlpool::math::sqrt_price_from_tick_index(-5000), false) else { continue };
+        w.ensure_tick_array(p, start, dynamic);
+        let mut slots: Vec<i32> = (0..88).collect();
+        slots.shuffle(&mut w.r);
+        let mut mon = C13InSitu;
+        let mut out = vec![];
+        let mut opened = vec![];
+        for pair in slots.chunks(2) {
+            let (a, b) = (pair[0].min(pair[1]), pair[0].max(pair[1]));
+            let (lo, hi) = (start + a * sp as i32, start + b * sp as i32);
+            let (ix, info) = w.open_position_ix(p, u, lo, hi, opened.len() % 2 == 0);
+            if !w.exec(ix).ok() {
+                out.push(false);
+                continue;
+            }
+            w.positions.push(info);
+            let i = w.positions.len() - 1;
+            opened.push(i);
+            let l = w.r.gen_range(1..1000u128);
+            let ix = if opened.len() % 2 == 0 { w.modify_v1(i).increase_liquidity(l, u64::MAX, u64::MAX) } else { w.modify_v2(i).increase_liquidity_v2(l, u64::MAX, u64::MAX, None) };
+            let o = w.exec(ix);
+            out.push(o.ok());
+            acc.evaluations += 1;
+            mon.after(&mut w, &o, acc);
+            let pk = w.pools[p].key;
+            for (sig, d) in crate::monitors::c05::check_pool(&w.bank, &pk, acc) {
+                acc.violation(format!("tickarray:directed_full_array:{sig}"), d, json!({"dynamic": dynamic, "spacing": sp}));
+            }
+        }
+        let key = w.tick_array_key(p, start);
+        let n = w.bank.data(&key).and_then(codec::TickArray::decode).and_then(|r| r.ok()).map(|t| t.count_initialized()).unwrap_or(0);
+        if n == 88 {
+            acc.count("directed_arrays_filled_through_instructions");
+        }
+        opened.shuffle(&mut w.r);
+        for i in opened {
+            let l = codec::Position::decode(w.bank.data(&w.positions[i].position).unwrap_or(&[])).map(|p| p.liquidity).unwrap_or(0);
+            let ix = if i % 2 == 0 { w.modify_v1(i).decrease_liquidity(l, 0, 0) } else { w.modify_v2(i).decrease_liquidity_v2(l, 0, 0, None) };
+            let o = w.exec(ix);
+            out.push(o.ok());
+            acc.evaluations += 1;
+            mon.after(&mut w, &o, acc);
+        }
+        outcomes.push(out);
+    }
+    if outcomes.len() == 2 {
+        if outcomes[0] != outcomes[1] {
+            let k = outcomes[0].iter().zip(&outcomes[1]).position(|(a, b)| a != b).unwrap_or(0);
+            acc.violation("tickarray:directed_full_array:dynamic_and_fixed_disagree", format!("instruction {k} of the fill / drain sequence: dynamic array {} , fixed array {}", if outcomes[0].get(k) == Some(&true) { "succeeded" } else { "failed" }, if outcomes[1].get(k) == Some(&true) { "succeeded" } else { "failed" }), json!({"instruction_index": k}));
+        } else if outcomes[0].iter().any(|x| !x) {
+            let k = outcomes[0].iter().position(|x| !x).unwrap_or(0);
+            acc.violation("tickarray:directed_full_array:instruction_failed", format!("instruction {k} of the fill / drain sequence failed on both array kinds"), json!({"instruction_index": k}));
+        }
+    }
+}
+
 /// Fill one array completely (all 88 slots initialized, random order) and empty it again (another random order),
 /// with the encoding oracle after every update and the complete query set every `q_every` updates and at the two
 /// extremes. Random toggling never reaches a full array; the last insertions are where the packed region is longest.
@@ -437,7 +510,7 @@ pub fn fill_and_drain(start: i32, spacing: u16, r: &mut rnd::R, q_every: usize, 
 
 pub fn run(tier: Tier, seed: u64) -> i32 {
     let mut rep = Report::new("C13", tier, seed);
-    rep.rule = "exhaustive: for spacings {1,64,32896} x starts {0, a negative array, the MIN-straddling array}, every subset (256) of the boundary slots {0,1,62,63,64,65,86,87} as initialized set, every single update (initialize/modify, de-initialize) of every boundary slot, and after each the complete query set (get_tick on slots -2..89, unaligned and out-of-bounds indexes; get_next_init_tick_index from every slot in both directions incl. the shifted range) compared across Anchor fixed, Anchor dynamic, Pinocchio fixed, Pinocchio dynamic and an abstract slot map, plus encoding well-formedness (bitmap, 113/1-byte records in slot order, used length 148+112n, Anchor bytes == Pinocchio bytes). random: long update/query sequences over all 88 slots, one in ten a fill-and-drain sweep (every slot initialized in random order until the array is full, then emptied). in situ: after every successful instruction of a liquidity-heavy history workload (fixed and dynamic arrays mixed per pool, repositions, same-array positions) every tick-array account touched must be well formed, have exactly the size its encoding needs (9988 / 148+112n), bitmap == tags, and be rent exempt. distinct = (spacing, start class, initialized-set, transition)".into();
+    rep.rule = "exhaustive: for spacings {1,64,32896} x starts {0, a negative array, the MIN-straddling array}, every subset (256) of the boundary slots {0,1,62,63,64,65,86,87} as initialized set, every single update (initialize/modify, de-initialize) of every boundary slot, and after each the complete query set (get_tick on slots -2..89, unaligned and out-of-bounds indexes; get_next_init_tick_index from every slot in both directions incl. the shifted range) compared across Anchor fixed, Anchor dynamic, Pinocchio fixed, Pinocchio dynamic and an abstract slot map, plus encoding well-formedness (bitmap, 113/1-byte records in slot order, used length 148+112n, Anchor bytes == Pinocchio bytes). random: long update/query sequences over all 88 slots, one in ten a fill-and-drain sweep (every slot initialized in random order until the array is full, then emptied). directed: one tick array filled to 88 initialized ticks and emptied again through the real liquidity instructions, on a dynamic and on a fixed array: same outcomes, all succeed, position sums hold. in situ: after every successful instruction of a liquidity-heavy history workload (fixed and dynamic arrays mixed per pool, repositions, same-array positions) every tick-array account touched must be well formed, have exactly the size its encoding needs (9988 / 148+112n), bitmap == tags, and be rent exempt. distinct = (spacing, start class, initialized-set, transition)".into();
     rep.exhaustive = true;
     rep.assumptions = vec![
         "buffers are allocated at the maximum encoded size (on chain: 10 KiB realloc padding behind every account)".into(),
@@ -584,6 +657,9 @@ pub fn run(tier: Tier, seed: u64) -> i32 {
         acc
     });
     let mut acc = acc;
+    for k in 0..tier.pick(6u64, 60) {
+        directed_full_array(seed.wrapping_add(k * 7919), &mut acc);
+    }
     let per_shard = tier.pick(40, 1000);
     acc.merge(super::hrun::run_histories(
         seed ^ 0x1313,
@@ -593,6 +669,7 @@ pub fn run(tier: Tier, seed: u64) -> i32 {
     ));
     rep.acc = acc;
     rep.floor("dynamic_tick_arrays_checked", 5000);
+    rep.floor("directed_arrays_filled_through_instructions", 8);
     rep.floor("dynamic_tick_array_resizes_seen", 1000);
     rep.floor("states", 256 * ncombos as u64 * 9 / 10);
     rep.floor("transitions", 16 * 256 * ncombos as u64 * 9 / 10);
